@@ -142,6 +142,16 @@ def run(tier):
     verdicts, stats = core.validate_cases("trace/TraceGreedy.tla", [strip(t) for t in traces])
     rep.add_trace_stats("TraceGreedy", stats, len(traces))
     core.judge(rep, traces, verdicts)
+    # (B) spec -> code: behaviours generated by TLC (requests, thresholds, warm starts AND the score tables) are replayed in
+    # the real GreedySelector.fit through a subclass with a scripted scorer; tie-free behaviours must be reproduced exactly
+    from harness import behaviours as B
+    beh, rsim = B.dump_behaviours("GreedySelector.tla", "mc/GreedySelector_cur.cfg", 150 if tier == "quick" else 3000, 14, core.seed() + 1)
+    btr = [B.replay(b, 4, "beh%d" % i) for i, b in enumerate(beh)]
+    btr = [t for t in btr if t["events"]]
+    bv, bstats = core.validate_cases("trace/TraceGreedy.tla", btr)
+    rep.add_trace_stats("TraceGreedy[TLC behaviours replayed with a scripted scorer]", bstats, len(btr))
+    core.judge(rep, btr, bv)
+    rep.cov["behaviours_replayed_from_tlc_simulate"] = len(btr)
     by_cls = {}
     for t in traces:
         by_cls[t["cls"]] = by_cls.get(t["cls"], 0) + 1
